@@ -241,8 +241,7 @@ def run(ctx):
         ctx.count()
         ctx.nontriv(("r", k))
     ctx.sample(cases[-1])
-    for pt, pc in zip(chunks(traces, 10000), chunks(cases, 10000)):
-        ctx.validate(SPEC, "ElementsTrace", "ElementsTrace.cfg", pt, cases=pc, name="observed-cases")
+    ctx.validate(SPEC, "ElementsTrace", "ElementsTrace.cfg", traces, cases=cases, name="observed-cases")
 
 
 def format_fraction(f):
